@@ -240,8 +240,8 @@ def build_model(pid, extract_v, driver_ml):
 
 # ------------------------------------------------------------------ rust harness
 
-def build_harness(bins):
-    h = os.path.join(ROOT, 'harness')
+def build_harness(bins, hdir='harness'):
+    h = os.path.join(ROOT, hdir)
     if not os.path.exists(os.path.join(h, 'Cargo.lock')):
         shutil.copy(os.path.join(REPO, 'Cargo.lock'), os.path.join(h, 'Cargo.lock'))
     target = os.path.join(CACHE, 'target')
@@ -517,7 +517,7 @@ def check_property(prop, tier, seed, replay=None):
             if proof_ok:
                 raise
             notes.append('model not buildable after broken proof: %s' % str(ex)[:300])
-        bins = build_harness([prop.harness_bin] + list(getattr(prop, 'extra_bins', [])))
+        bins = build_harness([prop.harness_bin] + list(getattr(prop, 'extra_bins', [])), getattr(prop, 'harness_dir', 'harness'))
 
     # 4. cases
     rng = random.Random(seed)
